@@ -63,8 +63,11 @@ CURRENT_PID = None       # set by Acc(): the property being checked
 def harness(args, enc=False, timeout=3600, stdin=None):
     """Run the harness; returns (summary dict or None, VIOLATION lines, all stdout lines)."""
     b = build_harness(enc)
-    p = subprocess.run([b] + [str(a) for a in args], cwd=ROOT, stdout=subprocess.PIPE, stderr=subprocess.PIPE,
-                       text=True, timeout=timeout, input=stdin)
+    try:
+        p = subprocess.run([b] + [str(a) for a in args], cwd=ROOT, stdout=subprocess.PIPE, stderr=subprocess.PIPE,
+                           text=True, timeout=timeout, input=stdin)
+    except subprocess.TimeoutExpired:
+        raise ToolError(f"harness {' '.join(map(str, args))} timed out after {timeout}s")
     lines = [l for l in p.stdout.splitlines()]
     summ = None
     viol = []
